@@ -184,6 +184,25 @@ fn main() {
         Cmd::Init(Some(2)), Cmd::AddKey(vec![1, 2], vec![0, 1, 2, 3]), Cmd::SetThreshold(0, 2), Cmd::SetThreshold(1, 1), Cmd::SetThreshold(2, 1), Cmd::SetThreshold(3, 1),
         Cmd::Sign(vec![0], Some(0), true), Cmd::Sign(vec![1], None, false), Cmd::Sign(vec![1, 2], None, false),
     ]));
+    // a key that is in the key table for another role only: its signature never counts towards the root threshold
+    jobs.push(("corpus-table-key-not-root", vec![
+        Cmd::Init(None), Cmd::AddKey(vec![0], vec![0]), Cmd::AddKey(vec![1], vec![1, 2, 3]),
+        Cmd::SetThreshold(0, 1), Cmd::SetThreshold(1, 1), Cmd::SetThreshold(2, 1), Cmd::SetThreshold(3, 1),
+        Cmd::Sign(vec![1], None, false), Cmd::Sign(vec![1], None, true), Cmd::Sign(vec![1], None, false), Cmd::Sign(vec![0], None, false),
+    ]));
+    // the old root key stays in the new key table as an online key; cross-signed, then a plain sign with that key alone
+    jobs.push(("corpus-cross-key-kept-online", vec![
+        Cmd::Init(None), Cmd::AddKey(vec![0], vec![0, 1, 2, 3]), Cmd::SetThreshold(0, 1), Cmd::SetThreshold(1, 1), Cmd::SetThreshold(2, 1), Cmd::SetThreshold(3, 1),
+        Cmd::Sign(vec![0], None, false), Cmd::SaveCopy(0),
+        Cmd::Init(Some(2)), Cmd::AddKey(vec![1], vec![0]), Cmd::AddKey(vec![0], vec![1, 2, 3]),
+        Cmd::SetThreshold(0, 1), Cmd::SetThreshold(1, 1), Cmd::SetThreshold(2, 1), Cmd::SetThreshold(3, 1),
+        Cmd::Sign(vec![0], Some(0), true), Cmd::Sign(vec![0], None, false), Cmd::Sign(vec![1], None, false),
+    ]));
+    // a root key is removed from the root role but stays listed for another role
+    jobs.push(("corpus-removed-from-root-role", vec![
+        Cmd::Init(None), Cmd::AddKey(vec![0, 1], vec![0, 1, 2, 3]), Cmd::SetThreshold(0, 2), Cmd::SetThreshold(1, 1), Cmd::SetThreshold(2, 1), Cmd::SetThreshold(3, 1),
+        Cmd::RemoveKey(1, Some(0)), Cmd::Sign(vec![0, 1], None, false), Cmd::SetThreshold(0, 1), Cmd::Sign(vec![1], None, false), Cmd::Sign(vec![0], None, false),
+    ]));
     let n = if thorough { 1500 } else { 150 };
     for i in 0..n {
         let mut r = Rng::new(args.seed, i);
@@ -195,7 +214,13 @@ fn main() {
         // a usable root most of the time: init, keys for all roles, thresholds
         if r.chance(4, 5) {
             cmds.push(Cmd::Init(None));
-            cmds.push(Cmd::AddKey((0..r.range(1, nkeys as u64) as usize).collect(), vec![0, 1, 2, 3]));
+            if nkeys >= 2 && r.chance(1, 3) {
+                // separate root and online keys: the last key is listed for the other roles only
+                cmds.push(Cmd::AddKey((0..nkeys - 1).collect(), vec![0]));
+                cmds.push(Cmd::AddKey(vec![nkeys - 1], vec![1, 2, 3]));
+            } else {
+                cmds.push(Cmd::AddKey((0..r.range(1, nkeys as u64) as usize).collect(), vec![0, 1, 2, 3]));
+            }
             for role in 0..4 { cmds.push(Cmd::SetThreshold(role, if role == 0 { r.range(1, 2) } else { 1 })); }
         }
         for _ in 0..len {
